@@ -36,6 +36,7 @@ func rulesC08(c *Ctx) {
 	pureC08(c)
 	slotsC08(c)
 	runeIndexC08(c, p.SSAFunc(pd))
+	distinctStoreC08(c)
 	// a duration literal node is built anew for every occurrence: a node kept by
 	// the parser and handed out twice is negated in place by the unary minus
 	parseFreshRule(c, "C08.parsefresh")
@@ -1113,4 +1114,72 @@ func elementWritten(p *Program, g *ssa.Global) bool {
 		}
 	}
 	return false
+}
+
+// distinctStoreC08: two optional clauses never share one variable.
+func distinctStoreC08(c *Ctx) {
+	p := c.P
+	c.Rule("C08.distinctstore", "in every parse function the addresses stored into different pointer fields of the node being built are addresses of different variables: two optional durations that point at the same slot of a shared block overwrite each other, so `SHARD DURATION 1h PAST LIMIT 30m` comes back with a 30m shard duration")
+	n := 0
+	for _, f := range p.allSSAFuncs() {
+		if f.Signature.Recv() == nil || !strings.HasSuffix(f.Signature.Recv().Type().String(), ".Parser") {
+			continue
+		}
+		type slot struct {
+			base ssa.Value
+			idx  string
+		}
+		used := map[slot]map[string]token.Pos{}
+		for _, b := range f.Blocks {
+			for _, in := range b.Instrs {
+				st, ok := in.(*ssa.Store)
+				if !ok {
+					continue
+				}
+				fa, ok := st.Addr.(*ssa.FieldAddr)
+				if !ok {
+					continue
+				}
+				if _, isPtr := st.Val.Type().Underlying().(*types.Pointer); !isPtr {
+					continue
+				}
+				var s slot
+				switch x := st.Val.(type) {
+				case *ssa.IndexAddr:
+					k, ok := x.Index.(*ssa.Const)
+					if !ok || k.Value == nil {
+						continue
+					}
+					s = slot{x.X, k.Value.String()}
+				case *ssa.Alloc:
+					s = slot{x, ""}
+				default:
+					continue
+				}
+				n++
+				if used[s] == nil {
+					used[s] = map[string]token.Pos{}
+				}
+				used[s][fieldNameOf(fa)] = st.Pos()
+			}
+		}
+		for s, fields := range used {
+			if len(fields) < 2 {
+				continue
+			}
+			var names []string
+			var pos token.Pos
+			for nm, ps := range fields {
+				names = append(names, nm)
+				if ps > pos {
+					pos = ps
+				}
+			}
+			sort.Strings(names)
+			_ = s
+			c.Bad("C08.distinctstore", ssaFuncName(f)+": "+strings.Join(names, " and ")+" share one variable", pos, "the same address is stored into both fields: whichever clause is parsed later overwrites the other's value")
+		}
+	}
+	c.OK("C08.distinctstore", "address stores examined", 0, fmt.Sprintf("%d", n))
+	c.Floor("C08.distinctstore", n, 8)
 }
